@@ -437,6 +437,58 @@ def d9(ctx, prog):
     return 1
 
 
+
+def d11(ctx, prog):
+    """the accumulator works on the container it is given: in start() and run() the value bound to self.container, evaluated with a
+    new (non-None) argument and an old (non-None) attribute, is the argument - a remembered container never wins over the one
+    passed in, so a second TTestAnalysis.run() accumulates the new sets"""
+    acc = prog.need_class(TT, 'TTestThreadAccumulator')
+    n = 0
+
+    def val(e, cp):
+        # -> 'NEW' | 'OLD' | None (not decided), with the parameter and the attribute both not None
+        if isinstance(e, ast.Name) and e.id == cp:
+            return 'NEW'
+        if self_attr(e) == 'container':
+            return 'OLD'
+        if isinstance(e, ast.IfExp):
+            t = e.test
+            neg = False
+            while isinstance(t, ast.UnaryOp) and isinstance(t.op, ast.Not):
+                neg, t = not neg, t.operand
+            truth = None
+            if isinstance(t, ast.Compare) and len(t.ops) == 1 and isinstance(t.comparators[0], ast.Constant) and t.comparators[0].value is None and val(t.left, cp) in ('NEW', 'OLD'):
+                truth = isinstance(t.ops[0], (ast.IsNot, ast.NotEq))          # both are not None
+            elif val(t, cp) in ('NEW', 'OLD'):
+                truth = True                                                    # truthiness of a container object
+            if truth is None:
+                return None
+            return val(e.body if (truth != neg) else e.orelse, cp)
+        if isinstance(e, ast.BoolOp) and isinstance(e.op, ast.Or):
+            return val(e.values[0], cp) if val(e.values[0], cp) in ('NEW', 'OLD') else None
+        return None
+    for mname in ('start', 'run'):
+        f = prog.resolve_method(acc, mname)
+        if f is None or f.cls is not acc:
+            continue
+        cps = [p for p in f.params if p != 'self']
+        if not cps:
+            continue
+        cp = cps[0]
+        sts = [s_ for s_ in ast.walk(f.node) if isinstance(s_, ast.Assign) and any(self_attr(t) == 'container' for t in s_.targets)]
+        key = f'{f.key}::container worked on'
+        n += 1
+        if len(sts) != 1:
+            ctx.undecided('C09-D11', key, f'{len(sts)} bindings of self.container in {mname}()', f.where())
+            continue
+        v = val(sts[0].value, cp)
+        if v is None:
+            ctx.undecided('C09-D11', key, f'`{norm(sts[0])[:70]}` not understood', f.where(sts[0]))
+        else:
+            ctx.check(v == 'NEW', 'C09-D11', key, f'`{norm(sts[0])[:80]}`: when a container was already remembered it wins over the one passed to {mname}(): a second run() of the analysis re-accumulates the first '
+                      'sets and never reads the new ones (the result is not the statistic of the concatenated sets)', f'{mname}() works on the container it is given', f.where(sts[0]))
+    return n
+
 def run(ctx, prog):
     from .. import universe as _uni0
     _uni0.inline_base_entry_points(ctx, prog)
@@ -523,3 +575,5 @@ def run(ctx, prog):
     ctx.floor('t statistic compared with its definition', d9(ctx, prog), 1)
     ctx.floor('prange loops in the t-test kernel', n, 1)
     ctx.floor('C01 obligations on the t-test accumulator', len(sub.obs), 6)
+    ctx.rule('C09-D11', 'start() and run() of the accumulator work on the container they are given (a remembered container never wins over the argument)')
+    ctx.floor('container bindings judged', d11(ctx, prog), 2)
